@@ -454,6 +454,12 @@ class J1939_22:
                             if should_break:
                                 break
 
+                        if (buf['state'] == self.SendBufferState.SENDING_RTS_CTS) and (buf['next_packet_to_send'] >= buf['num_segments']):
+                            # a CTS asked for segments beyond the end of the message:
+                            # nothing to send for it, wait for the next CTS (or time out)
+                            buf['state'] = self.SendBufferState.WAITING_CTS
+                            buf['deadline'] = time.time() + self.Timeout.T3
+
                         # recalc next wakeup
                         if next_wakeup > buf['deadline']:
                             next_wakeup = buf['deadline']
